@@ -11,7 +11,9 @@ from han.common import MeterMessageType
 from vlib import gen_hdlc as GH
 from vlib import resync
 from vlib.ref_hdlc import FLAG
-from vlib.runner import Check, FuzzClause, HypClause, Info, fail, guarded
+import os
+
+from vlib.runner import Check, EnumClause, FuzzClause, HypClause, Info, fail, guarded
 
 logging.disable(logging.CRITICAL)
 
@@ -46,8 +48,14 @@ def damaged_readout_st(draw):
     return bytes(ident) + b"\r\n" + body + end
 
 
+# long runs of one kind of octet inside a frame (addresses that never terminate, fill characters)
+long_run_st = st.tuples(st.sampled_from([b"\x7e", b"\x7e\xa0\x10", b""]), st.sampled_from([0x02, 0x00, 0x10, 0xFE, 0x11, 0x13, 0x7D]), st.sampled_from([300, 1000, 1050, 1100])).map(lambda t: t[0] + bytes([t[1]]) * t[2])
+# (a run of even octets costs the reader quadratic time - see DESIGN section 5 - so these tokens are kept rare and <= 1100 octets)
+long_run_rare_st = st.integers(0, 11).flatmap(lambda k: long_run_st if k == 0 else st.just(b""))
+
 token_st = st.one_of(
     damaged_readout_st(),
+    long_run_rare_st,
     st.sampled_from(_FIXED),
     st.sampled_from(_FIXED),
     st.binary(min_size=0, max_size=12),
@@ -130,7 +138,7 @@ def run_protocol(kind, order, noise, cuts, preselect=None):
     readers = [hdlc.HdlcFrameReader(False) if c == "H" else dlde.ModeDReader() for c in order]
     q = asyncio.Queue()
     cls = meter_connection.SmartMeterMessagePayloadProtocol if kind == "payload" else meter_connection.SmartMeterMessageProtocol
-    proto = guarded(cls, q, readers, what=cls.__name__)
+    proto = guarded(cls, q, readers if len(noise) % 2 else tuple(readers), what=cls.__name__)  # a list or a tuple (Sequence)
     if preselect is not None:
         guarded(proto.data_received, PRESELECT[preselect], what=f"{cls.__name__}.data_received (valid message)")
     for ch in GH.split(noise, cuts):
@@ -199,6 +207,27 @@ def _oracle(case) -> Info:
 case_st = st.tuples(st.lists(token_st, min_size=0, max_size=14).map(b"".join), GH.cuts_st(), st.integers(0, 10**6))
 
 
+def fresh_interpreter_oracle(case) -> Info:
+    """case = (n examples, seed): run the noise clause in a fresh interpreter with DEBUG logging configured before han is imported."""
+    import json
+    import os
+    import subprocess
+    import sys
+
+    from vlib.runner import dec
+
+    n, seed = case
+    r = subprocess.run([sys.executable, "-m", "vlib.subrun", "C14", "noise", str(n), str(seed)], capture_output=True, text=True, timeout=1500, env=os.environ)
+    line = next((l for l in r.stdout.splitlines() if l.startswith("SUBRUN-RESULT ")), None)
+    if line is None:
+        raise RuntimeError(f"fresh-interpreter run produced no result: {r.stderr[-400:]}")
+    res = json.loads(line[len("SUBRUN-RESULT "):])
+    if res["failure"]:
+        case_enc, detail, sig = res["failure"]
+        fail(f"[fresh interpreter, logging at DEBUG before `import han`; noise {dec(case_enc)[0]!r:.80}] {detail}", sig=sig)
+    return Info(nontrivial=True, classes=("fresh-interpreter-run",), counts={"fresh-interpreter-cases": res["evals"]}, sample={"examples": res["evals"], "seed": seed})
+
+
 def build() -> Check:
     return Check(
         pid="C14",
@@ -211,7 +240,7 @@ def build() -> Check:
             "readout has already selected a reader; every returned message is asked "
             "is_valid/payload/as_bytes/message_type; then a clean tail (3 frames/readouts; 150 flag-free frames without stuffing) must be "
             "delivered per C16's rule. Non-trivial = the noise contains a structural character and (a byte >= 0x80 or a malformed end "
-            "line). Failures are bucketed by (exception type, innermost han function). Distinct = case hash. coverage-guided: atheris "
+            "line). debug-at-import: the same noise cases in fresh interpreters whose logging was set to DEBUG before `han` was imported. Failures are bucketed by (exception type, innermost han function). Distinct = case hash. coverage-guided: atheris "
             "(libFuzzer) campaigns with han/ instrumented, raw bytes decoded into (splitting, noise), half from an empty corpus and half "
             "seeded with genuine messages; its executions are counted in evaluations but not in distinct_nontrivial."
         ),
@@ -221,6 +250,7 @@ def build() -> Check:
         ],
         clauses=[
             HypClause("noise", case_st, oracle, quick=3500, thorough=300000),
+            EnumClause("debug-at-import", size=lambda tier: 4 if tier == "quick" else 16, case_at=lambda i, tier: (150 if tier == "quick" else 3000, int(os.environ.get("VERIF_SEED", "1") or 1) * 100 + i), oracle=fresh_interpreter_oracle, doc="noise cases in fresh interpreters where logging was at DEBUG before han was imported", exhaustive=False),
             FuzzClause("coverage-guided", "C14", oracle, quick=(2, 250), thorough=(16, 40000), max_len=400, doc="atheris/libFuzzer campaigns on the same oracle (raw bytes -> splitting + noise), empty and fixture corpora"),
         ],
     )
